@@ -635,6 +635,44 @@ def check(run):
                         and 8 < k < 26:
                     k = 26          # attribute writes are all alike
             run.extra[f"write_calls:{label}"] = nw
+        # --- a failure part-way, then the SAME curve saved with ANOTHER fit:
+        # what is stored is that other fit alone, exactly as in a container
+        # that never saw the interrupted attempt
+        m2b = fit_curve(load_curves(mapf)[2], **copy.deepcopy(FITS[1]))
+        cid2 = modelled_curve(m2b)["cid"]
+        scr = Scenario(run, "other-fit-reference", exprs, descr)
+        scr.save(a, 5, "alice", "ok", label="base")
+        _, _, _, ref_post = scr.save(m2b, 4, "dave", "other fit",
+                                     label="reference")
+        ref_group = ref_post["analysis"].get(cid2)
+        shutil.rmtree(scr.dir, ignore_errors=True)
+        ks = range(2, (nw or 30)) if run.tier != "quick" else \
+            [k for k in range(2, (nw or 30)) if k < 9 or k > 25]
+        for k in ks:
+            sc3 = Scenario(run, f"crash-then-other-fit-{k}", exprs, descr)
+            sc3.save(a, 5, "alice", "ok", label="base")
+            exn, f, _, _ = sc3.save(m2, 4, "dave", "first fit", fail=k,
+                                    label="crash-new-file")
+            if exn != "Boom":
+                shutil.rmtree(sc3.dir, ignore_errors=True)
+                break
+            e2, _, _, post = sc3.save(m2b, 4, "dave", "other fit",
+                                      label="other-fit-after-crash")
+            got = post["analysis"].get(cid2)
+            if e2 is None and got != ref_group:
+                diffs = sorted(
+                    set(n for n in (got or {}).get("dsets", {})
+                        if (got or {})["dsets"].get(n)
+                        != (ref_group or {}).get("dsets", {}).get(n))
+                    | set(n for n in (got or {}).get("attrs", {})
+                          if (got or {})["attrs"].get(n)
+                          != (ref_group or {}).get("attrs", {}).get(n)))
+                sc3.fail(f"other-fit|{k}", f"after a failure before write {k} "
+                         "of one fit, saving another fit of the same curve "
+                         "stores an entry that differs from the one a clean "
+                         f"container gets for that fit (in {diffs})",
+                         theorem="C16_crash_safe")
+            shutil.rmtree(sc3.dir, ignore_errors=True)
         # --- round trips
         cases = [("single-%d" % i, load_curves(single)[0], kw)
                  for i, kw in enumerate(FITS)]
